@@ -18,7 +18,7 @@ struct Grp { uint16_t id; const char *name; };
 const Grp GROUPS[] = { { 23, "P-256" }, { 24, "P-384" }, { 25, "P-521" }, { 29, "X25519" } };
 const size_t PAYLOADS[] = { 1, 2, 15, 16, 17, 255, 256, 1023, 1500, 4096, 16383, 16384, 16385, 20000, 33000 };
 
-struct Conn { bool ok = false, mx_complete = false, os_complete = false, data_ok = false, mx_resumed = false, os_resumed = false; std::string why; int os_alert_sent = -1, os_alert_recv = -1, mx_err = 0; std::string os_cipher, os_group; int os_ver = 0; uint64_t fp = 0; };
+struct Conn { int early_status = 0; bool early_delivered = false; bool ok = false, mx_complete = false, os_complete = false, data_ok = false, mx_resumed = false, os_resumed = false; std::string why; int os_alert_sent = -1, os_alert_recv = -1, mx_err = 0; std::string os_cipher, os_group; int os_ver = 0; uint64_t fp = 0; };
 
 struct Interop {
     const Plan &p;
@@ -71,6 +71,7 @@ struct Interop {
         c.versions = { MVER[ver] };
         if (!c.server) { c.suites = { suite }; c.sid = sid; c.ticket_resumption = tickets; }
         c.client_auth = c.server && cauth != 0;
+        if (c.server && p.get("oearly")) { c.max_early_data = 16384; }      // the MatrixSSL server accepts 0-RTT data (tickets carry the permission)
         c.groups = groups_m; c.key_shares = c.server ? 0 : key_shares;
         c.cb_policy = CB_STRICT;
         return c;
@@ -115,6 +116,8 @@ struct Interop {
     Conn connect(bool resume, int idx) {
         Conn c;
         MxEndpoint mx; OsslEndpoint os;
+        Bytes early;
+        if (role == 1 && resume && ver == 2 && p.get("oearly")) { early = tagged_payload(0, 700 + idx, (size_t) (1 + p.get("oearly") % 1200)); os.early_payload = early; }
         if (role == 1) { if (mx.create(mx_cfg(), mkeys) < 0) { c.why = "matrix server create"; return c; } if (!os.create(osh, resume)) { c.why = "openssl client create"; return c; } }
         else { if (!os.create(osh, resume)) { c.why = "openssl server create"; return c; } if (mx.create(mx_cfg(), mkeys) < 0) { c.why = "matrix client create rc=" + std::to_string(mx.create_rc); return c; } }
         pump(mx, os);
@@ -125,6 +128,11 @@ struct Interop {
             c.os_cipher = os.negotiated_cipher(); c.os_group = os.negotiated_group(); c.os_ver = os.negotiated_version();
             // payloads both ways: a few lengths from the boundary set (plan-chosen)
             std::vector<Bytes> to_os, to_mx;
+            c.early_status = os.early_status();
+            if (!early.empty() && os.early_write_rc == 1) {
+                counters[c.early_status == SSL_EARLY_DATA_ACCEPTED ? "early.openssl_0rtt_accepted" : "early.openssl_0rtt_rejected"]++;
+                if (c.early_status == SSL_EARLY_DATA_ACCEPTED) { to_mx.push_back(early); }      // the MatrixSSL server must have delivered exactly this, first
+            }
             for (int k = 0; k < 3; k++) {
                 size_t la = PAYLOADS[(uint64_t) (p.get("pl") + k * 5 + idx) % (sizeof PAYLOADS / sizeof PAYLOADS[0])], lb = PAYLOADS[(uint64_t) (p.get("pl") / 16 + k * 3 + idx) % (sizeof PAYLOADS / sizeof PAYLOADS[0])];
                 if (ver >= 3) { la = 1 + la % 1100; lb = 1 + lb % 1100; }    // one datagram each
@@ -248,6 +256,7 @@ static Plan c10_gen(uint64_t seed, int tier, uint64_t index) {
     p.cfg["chunk"] = (int64_t) r.below(4);
     p.cfg["pl"] = (int64_t) r.below(4096);
     if (r.chance(2, 3)) { p.cfg["resume"] = 1 + (int64_t) r.below(2); }    // 1: one resumed connection, 2: two
+    if (ver == 2 && role == 1 && p.get("resume") && r.chance(1, 2)) { p.cfg["oearly"] = 1 + (int64_t) r.below(3000); }   // the OpenSSL client sends 0-RTT data on the resumed connections
     return p;
 }
 
@@ -282,6 +291,12 @@ static std::vector<Plan> c10_fixed(int tier) {
             }
         }
     }
+    // TLS 1.3 0-RTT from the OpenSSL client to a MatrixSSL server that enabled early data: accepted (same group) and after a HelloRetryRequest (must be skipped)
+    for (int s = 0; s < 3; s++) { for (int hrr = 0; hrr < 2; hrr++) { for (int len : { 1, 300, 1200 }) {
+        Plan p; p.seed = 108000 + (uint64_t) (s * 100 + hrr * 10 + len % 7); base_cfg(p, 1, 2, S13[s], KK_EC256); p.cfg["resume"] = 2; p.cfg["oearly"] = len; p.cfg["pl"] = s;
+        if (hrr) { p.cfg["grp_m1"] = GROUPS[1].id; p.cfg["grp_o1"] = GROUPS[0].id; p.cfg["grp_o2"] = GROUPS[1].id; }     // client's first share P-256, server only takes P-384
+        v.push_back(p);
+    } } }
     // DTLS 1.0 / 1.2: every suite both stacks have, both roles, first connection + session-id resumption
     for (int role = 0; role < 2; role++) {
         for (int ver = 3; ver < 5; ver++) {
